@@ -63,6 +63,20 @@ func GetOperator(name string, opts plugintypes.OperatorOptions) (plugintypes.Ope
 	return operators.Get(name, opts)
 }
 
+// @rx prefilter introspection (what was compiled, and which early stage of
+// Evaluate decides an input). Evidence only: nothing is decided through these.
+type RxInfo = operators.VerifRxInfo
+
+const (
+	RxStageRegex     = operators.VerifRxStageRegex
+	RxStageMinLen    = operators.VerifRxStageMinLen
+	RxStagePrefilter = operators.VerifRxStagePrefilter
+	RxStageExact     = operators.VerifRxStageExact
+)
+
+func RxInspect(op plugintypes.Operator) (RxInfo, bool)  { return operators.VerifRxInspect(op) }
+func RxStage(op plugintypes.Operator, value string) int { return operators.VerifRxStage(op, value) }
+
 func GetTransformation(name string) (plugintypes.Transformation, error) {
 	return transformations.GetTransformation(name)
 }
